@@ -182,6 +182,19 @@ func main() {
 			}
 			emit(w, runEditPair(c))
 		})
+	case "neutralfile":
+		// the C13 variants of hand-written / minimised cases (corpus)
+		cases, err := parseCases(fs.Arg(0))
+		if err != nil {
+			fmt.Fprintln(os.Stderr, err)
+			os.Exit(2)
+		}
+		for i, c := range cases {
+			if i < *start {
+				continue
+			}
+			emit(w, runNeutralPairs(c, rand.New(rand.NewSource(int64(i)+77))))
+		}
 	case "file":
 		cases, err := parseCases(fs.Arg(0))
 		if err != nil {
